@@ -19,6 +19,11 @@ CHECKS = {
          "Runs the real raiser on every lambda kind the public API produces (operator x operand-form x dtype-pair x shape-relation grid, every reduction axis subset) and on 28 near-miss shapes; the returned op is executed with NumPy on the identified operands and compared with the lambda's pointwise value (exact for int/bool, 8 ulp otherwise); crashes other than UnknownIndexLambdaExpr and unrecognised API lambdas are violations.",
          "Trusts NumPy ufuncs as the meaning of each HighLevelOp; HighLevelOps carry no dtype so the NumPy result is cast to the lambda's declared dtype before comparing. Expression shapes outside the generated families are not observed.",
          "DESIGN.md §3 C19"),
+ "C01": ("exploration",
+         "differential runtime oracle over generated programs: compiled kernel (loopy C target + gcc, harness buffers with canaries) vs NumPy shadow with Monte-Carlo-arithmetic tolerance, plus a third execution by a kernel-level interpreter (read-before-write / access events, attribution of loopy defects)",
+         "Thousands of random well-formed programs (7 profiles, heavy sharing, 1-3 outputs, all op families of the quantifier) are built through the public API, passed through deduplicate and generate_loopy, compiled and executed on 1-2 input sets; every output's shape, declared dtype and values are compared with NumPy (exact for int/bool; scale-aware tolerance from randomised-rounding shadow runs otherwise); any exception on an in-fragment program is a violation; output/operand order variants must satisfy the same oracle. Violations are shrunk and keyed by the minimal program's signature.",
+         "Trusts NumPy, gcc -O1 without contraction, and loopy's C code generator except for constructs listed in DESIGN.md §8 where the kernel-level interpreter agrees with NumPy and the C text is demonstrably mis-printed. Compositions never generated are not observed.",
+         "DESIGN.md §3 C01"),
 }
 
 NOT_YET = {
